@@ -1,6 +1,848 @@
+/-
+  C11 — bounding boxes and extrema are conservative and tight; monotone splits hold.
+
+  All statements are about the model functions of `Model/Geom/Extrema.lean` (the same `def`s the
+  correspondence check runs at `Float32`/`Float` against lyon) instantiated at an arbitrary linearly
+  ordered field `K`.  `sqrt`, `sin`, `cos`, `tan`, `atan`, `fmod`, `π` are parameters; the laws used
+  are hypotheses of the theorems that use them.
+
+  Full strength (every control polygon, every `t ∈ [0,1]`):
+    quadratics — exact box contains the curve and is touched on all four sides at the reported
+      parameters (which lie in [0,1] and are extremal); reported local extrema are exactly the
+      interior critical points; fast ⊇ exact ⊇ curve; monotone ranges partition [0,1]; every piece
+      is monotone in x and y; the control-point clamp is the identity, so the pieces retrace the curve;
+    cubics — fast box contains the curve; emitted parameters are exactly the roots of the
+      derivative in (0,1) (sqrt laws as hypotheses), in increasing order; the ranges partition [0,1];
+    lines, triangles — box contains / is the hull; paths — `aabb` fold = join of the event boxes.
+
+  `_partial` / `_witness` (genuine lyon defects, see findings.d/C11.json):
+    arc extremum parameters: true for positive sweeps (`arc_extremum_params_pos_partial`,
+      `…_complete_partial`), false for negative ones (`arc_extremum_params_neg_witness`,
+      `arc_box_neg_sweep_witness`);
+    arc fast box: true without rotation (`arc_fast_box_contains_partial`), false with rotation off
+      the origin (`arc_fast_box_witness`);
+    cubic monotone pieces: the clamp changes a monotone cubic (`cubic_clamp_distorts_witness`).
+  A fourth finding has no field-level witness because the algorithm is right in exact arithmetic
+  (`cubic_critical_roots`): the quadratic formula in `for_each_local_extremum` cancels in floating
+  point when the derivative's leading coefficient is tiny (`C11-cubic-extremum-cancellation`); it
+  is visible to the oracle on the real implementation and reproduced bit-for-bit by the model.
+
+  Not theorems (oracle only, named gaps): anything about IEEE rounding; the exact cubic box
+  containing the curve *between* critical points (`cubic_box_partial` covers ends, critical
+  points, parameters in range, attainment); the exact arc box for positive sweeps (needs the
+  characterisation of the ellipse's extremal angles through tan/atan).
+-/
 import LyonVerif.Model.Geom.Extrema
 import LyonVerif.Lemmas.Field
+import LyonVerif.Lemmas.Extrema
+import Mathlib.Tactic.NormNum
+import Mathlib.Data.Rat.Floor
+
+set_option linter.unusedSectionVars false
+set_option linter.unusedVariables false
+set_option linter.unusedSimpArgs false
+set_option linter.style.haveILetI false
+set_option warn.classDefReducibility false
+
 
 namespace Lyon.C11
-theorem stub : True := trivial
+
+open Lyon
+
+
+variable {K : Type} [Field K] [LinearOrder K] [IsStrictOrderedRing K]
+
+
+/-! ## Quadratic Bézier segments: the property's statements -/
+
+
+/-- **Conservative.** The exact bounding box contains every point of the curve (`t ∈ [0,1]`). -/
+theorem quad_box_contains (q : Quad K) (t : K) (h0 : 0 ≤ t) (h1 : t ≤ 1) :
+    Box.Contains q.boundingBox (q.sample t) := by
+  unfold Box.Contains
+  rw [quad_sample_x, quad_sample_y]
+  have hx := q1_range_contains q.a.x q.c.x q.b.x t h0 h1
+  have hy := q1_range_contains q.a.y q.c.y q.b.y t h0 h1
+  exact ⟨hx.1, hx.2, hy.1, hy.2⟩
+
+
+/-- **Tight.** Each of the four sides of the exact box is touched by the curve, at the reported
+extremum parameters, which lie in `[0,1]`. -/
+theorem quad_box_touched (q : Quad K) :
+    (0 ≤ q.xMinimumT ∧ q.xMinimumT ≤ 1 ∧ (q.sample q.xMinimumT).x = q.boundingBox.min.x) ∧
+    (0 ≤ q.xMaximumT ∧ q.xMaximumT ≤ 1 ∧ (q.sample q.xMaximumT).x = q.boundingBox.max.x) ∧
+    (0 ≤ q.yMinimumT ∧ q.yMinimumT ≤ 1 ∧ (q.sample q.yMinimumT).y = q.boundingBox.min.y) ∧
+    (0 ≤ q.yMaximumT ∧ q.yMaximumT ≤ 1 ∧ (q.sample q.yMaximumT).y = q.boundingBox.max.y) := by
+  refine ⟨⟨(q1_minT _ _ _).1.1, (q1_minT _ _ _).1.2, ?_⟩, ⟨(q1_maxT _ _ _).1.1, (q1_maxT _ _ _).1.2, ?_⟩,
+    ⟨(q1_minT _ _ _).1.1, (q1_minT _ _ _).1.2, ?_⟩, ⟨(q1_maxT _ _ _).1.1, (q1_maxT _ _ _).1.2, ?_⟩⟩
+  · rw [quad_sample_x]; rfl
+  · rw [quad_sample_x]; rfl
+  · rw [quad_sample_y]; rfl
+  · rw [quad_sample_y]; rfl
+
+
+/-- **Extremum parameters are where the coordinate is extremal** over the whole of `[0,1]`. -/
+theorem quad_extremum_params_extremal (q : Quad K) (t : K) (h0 : 0 ≤ t) (h1 : t ≤ 1) :
+    q.x q.xMinimumT ≤ q.x t ∧ q.x t ≤ q.x q.xMaximumT ∧
+    q.y q.yMinimumT ≤ q.y t ∧ q.y t ≤ q.y q.yMaximumT :=
+  ⟨(q1_minT _ _ _).2 t h0 h1, (q1_maxT _ _ _).2 t h0 h1, (q1_minT _ _ _).2 t h0 h1, (q1_maxT _ _ _).2 t h0 h1⟩
+
+
+/-- a reported local extremum is an interior critical point of its coordinate -/
+theorem quad_extremum_is_critical (q : Quad K) (t : K) :
+    (q.localXExtremumT = some t → 0 < t ∧ t < 1 ∧ q.dx t = 0) ∧
+    (q.localYExtremumT = some t → 0 < t ∧ t < 1 ∧ q.dy t = 0) := by
+  constructor <;> intro h
+  · obtain ⟨_, e, p0, p1⟩ := q1_localExt_facts h
+    refine ⟨p0, p1, ?_⟩; rw [quad_dx_eq]; unfold qd; linear_combination 2 * e
+  · obtain ⟨_, e, p0, p1⟩ := q1_localExt_facts h
+    refine ⟨p0, p1, ?_⟩; rw [quad_dy_eq]; unfold qd; linear_combination 2 * e
+
+
+/-- conversely every interior critical point of a genuinely quadratic coordinate is reported -/
+theorem quad_critical_is_reported (q : Quad K) (t : K) (h0 : 0 < t) (h1 : t < 1) :
+    (q.a.x - 2 * q.c.x + q.b.x ≠ 0 → q.dx t = 0 → q.localXExtremumT = some t) ∧
+    (q.a.y - 2 * q.c.y + q.b.y ≠ 0 → q.dy t = 0 → q.localYExtremumT = some t) := by
+  constructor <;> intro hD hd
+  · rw [quad_dx_eq] at hd; unfold qd at hd
+    exact (q1_localExt_some _ _ _ _).2 ⟨hD, eq_div_of_mul_eq hD (by linear_combination (1/2 : K) * hd), h0, h1⟩
+  · rw [quad_dy_eq] at hd; unfold qd at hd
+    exact (q1_localExt_some _ _ _ _).2 ⟨hD, eq_div_of_mul_eq hD (by linear_combination (1/2 : K) * hd), h0, h1⟩
+
+
+/-- the fast box (hull of the control points) contains the curve -/
+theorem quad_fast_box_contains (q : Quad K) (t : K) (h0 : 0 ≤ t) (h1 : t ≤ 1) :
+    Box.Contains q.fastBoundingBox (q.sample t) := by
+  unfold Box.Contains
+  rw [quad_sample_x, quad_sample_y]
+  have hx := q1_fast_range_contains q.a.x q.c.x q.b.x t h0 h1
+  have hy := q1_fast_range_contains q.a.y q.c.y q.b.y t h0 h1
+  exact ⟨hx.1, hx.2, hy.1, hy.2⟩
+
+
+/-- **fast ⊇ exact** -/
+theorem quad_fast_contains_exact (q : Quad K) : Box.Inside q.boundingBox q.fastBoundingBox :=
+  ⟨(q1_fast_contains_exact _ _ _).1, (q1_fast_contains_exact _ _ _).2,
+   (q1_fast_contains_exact _ _ _).1, (q1_fast_contains_exact _ _ _).2⟩
+
+
+/-- **Monotone ranges partition `[0,1]`**: they abut, in order, from 0 to 1, each of positive length. -/
+theorem quad_monotone_ranges_partition (q : Quad K) : Chain 0 q.monotonicRanges 1 := by
+  obtain ⟨t0, t1, e, h0, h1, ho, _⟩ := quad_ranges_eq q
+  rw [e]; exact (monoRangesOf_spec t0 t1 h0 h1 ho).1
+
+
+/-- **Each piece is monotone**: on every reported range both `x` and `y` are monotone. -/
+theorem quad_monotone_piece_monotone (q : Quad K) : ∀ r ∈ q.monotonicRanges,
+    MonoOn q.x r.1 r.2 ∧ MonoOn q.y r.1 r.2 := by
+  intro r hr
+  obtain ⟨a0, a1, a2, gx, gy⟩ := quad_ranges_good q r hr
+  exact ⟨q1_mono a0 (le_of_lt a1) a2 gx, q1_mono a0 (le_of_lt a1) a2 gy⟩
+
+
+/-- **The control-point clamp is the identity** on the reported ranges (exact arithmetic): the
+pieces handed out by `for_each_monotonic` are exactly `split_range` of the reported ranges. -/
+theorem quad_clamp_noop (q : Quad K) :
+    q.monotonicPieces = q.monotonicRanges.map (fun r => q.splitRange r.1 r.2) := by
+  unfold Quad.monotonicPieces
+  apply List.map_congr_left
+  intro r hr
+  obtain ⟨a0, a1, a2, gx, gy⟩ := quad_ranges_good q r hr
+  obtain ⟨ea, eb, ecx, ecy⟩ := quad_splitRange_ctrl q r.1 r.2
+  have hx := q1_clamp_noop a0 (le_of_lt a1) a2 gx
+  have hy := q1_clamp_noop a0 (le_of_lt a1) a2 gy
+  unfold Quad.clampXY
+  rw [ea, eb, quad_sample_x, quad_sample_x, quad_sample_y, quad_sample_y, ecx, ecy, hx, hy]
+  rw [← ecx, ← ecy]
+  cases h : q.splitRange r.1 r.2 with
+  | mk a c b =>
+    rw [h] at ea eb
+    simp only at ea eb
+    rw [← ea, ← eb]
+
+
+/-- **The pieces retrace the curve**: piece `r` sampled at `u` is the curve at `r.1 + (r.2-r.1)·u`
+(all `u`). -/
+theorem quad_pieces_retrace (q : Quad K) : ∀ r ∈ q.monotonicRanges, ∀ u : K,
+    (Quad.clampXY (q.splitRange r.1 r.2)).sample u = q.sample (r.1 + (r.2 - r.1) * u) := by
+  intro r hr u
+  have h := quad_clamp_noop q
+  unfold Quad.monotonicPieces at h
+  have h2 := List.map_inj_left.1 h r hr
+  rw [h2]
+  geom_ring
+
+
+/-- `for_each_x_monotonic_range` / `for_each_y_monotonic_range`: the ranges partition `[0,1]` and
+the coordinate is monotone on each -/
+theorem quad_xy_monotone_ranges (q : Quad K) :
+    (Chain 0 q.xMonotonicRanges 1 ∧ ∀ r ∈ q.xMonotonicRanges, MonoOn q.x r.1 r.2) ∧
+    (Chain 0 q.yMonotonicRanges 1 ∧ ∀ r ∈ q.yMonotonicRanges, MonoOn q.y r.1 r.2) := by
+  have fx : ∀ s, q.localXExtremumT = some s → 0 < s ∧ s < 1 := fun s h =>
+    ⟨(q1_localExt_facts h).2.2.1, (q1_localExt_facts h).2.2.2⟩
+  have fy : ∀ s, q.localYExtremumT = some s → 0 < s ∧ s < 1 := fun s h =>
+    ⟨(q1_localExt_facts h).2.2.1, (q1_localExt_facts h).2.2.2⟩
+  refine ⟨⟨(rangesAt_spec _ fx).1, fun r hr => ?_⟩, ⟨(rangesAt_spec _ fy).1, fun r hr => ?_⟩⟩
+  · obtain ⟨a0, a1, a2, g⟩ := (rangesAt_spec _ fx).2 r hr
+    exact q1_mono a0 (le_of_lt a1) a2 g
+  · obtain ⟨a0, a1, a2, g⟩ := (rangesAt_spec _ fy).2 r hr
+    exact q1_mono a0 (le_of_lt a1) a2 g
+
+
+/-- `is_x_monotonic` / `is_y_monotonic` / `is_monotonic` are sound -/
+theorem quad_is_monotonic_sound (q : Quad K) :
+    (q.isXMonotonic = true → MonoOn q.x 0 1) ∧ (q.isYMonotonic = true → MonoOn q.y 0 1) ∧
+    (q.isMonotonic = true → MonoOn q.x 0 1 ∧ MonoOn q.y 0 1) := by
+  have hx : q.isXMonotonic = true → MonoOn q.x 0 1 := by
+    intro h
+    have hn : q.localXExtremumT = none := by simpa [Quad.isXMonotonic] using h
+    exact q1_mono (le_refl _) (by norm_num) (le_refl _) (fun t ht => by have h' := hn.symm.trans ht; cases h')
+  have hy : q.isYMonotonic = true → MonoOn q.y 0 1 := by
+    intro h
+    have hn : q.localYExtremumT = none := by simpa [Quad.isYMonotonic] using h
+    exact q1_mono (le_refl _) (by norm_num) (le_refl _) (fun t ht => by have h' := hn.symm.trans ht; cases h')
+  refine ⟨hx, hy, fun h => ?_⟩
+  simp only [Quad.isMonotonic, Bool.and_eq_true] at h
+  exact ⟨hx h.1, hy h.2⟩
+
+
+/-- `for_each_x_monotonic` (which clamps `ctrl.x`) and `for_each_y_monotonic` hand out exactly the
+`split_range` of their ranges: the clamp is the identity in exact arithmetic -/
+theorem quad_xy_clamp_noop (q : Quad K) :
+    q.xMonotonicPieces = q.xMonotonicRanges.map (fun r => q.splitRange r.1 r.2) ∧
+    q.yMonotonicPieces = q.yMonotonicRanges.map (fun r => q.splitRange r.1 r.2) := by
+  constructor
+  · unfold Quad.xMonotonicPieces Quad.xMonotonicRanges
+    rcases hx : q.localXExtremumT with _ | t
+    · simp only [Quad.rangesAt, List.map_cons, List.map_nil, Scalar.zero, Scalar.one, sc_zero, sc_one]
+      congr 1
+      apply quad_ext <;> geom_ring
+    · obtain ⟨_, _, p0, p1⟩ := q1_localExt_facts hx
+      have g : ∀ s, Quad1.localExt q.a.x q.c.x q.b.x = some s → s = t := by
+        intro s hs; have : q.localXExtremumT = some s := hs
+        rw [hx] at this; cases this; rfl
+      have h1 := q1_clamp_noop (a := q.a.x) (c := q.c.x) (b := q.b.x) (lo := 0) (hi := t) (le_refl _)
+        (le_of_lt p0) (le_of_lt p1) (fun s hs => by right; rw [g s hs])
+      have h2 := q1_clamp_noop (a := q.a.x) (c := q.c.x) (b := q.b.x) (lo := t) (hi := 1) (le_of_lt p0)
+        (le_of_lt p1) (le_refl _) (fun s hs => by left; rw [g s hs])
+      simp only [Quad.rangesAt, List.map_cons, List.map_nil, Scalar.zero, Scalar.one, sc_zero, sc_one]
+      rw [(quad_split_eq_splitRange q t).1, (quad_split_eq_splitRange q t).2]
+      obtain ⟨ea, eb, ecx, _⟩ := quad_splitRange_ctrl q 0 t
+      obtain ⟨ea', eb', ecx', _⟩ := quad_splitRange_ctrl q t 1
+      have c1 : Quad.clampX (q.splitRange 0 t) = q.splitRange 0 t := by
+        unfold Quad.clampX
+        rw [ea, eb, quad_sample_x, quad_sample_x, ecx, h1, ← ecx]
+        cases h : q.splitRange 0 t with
+        | mk a c b => rw [h] at ea eb; simp only at ea eb; rw [← ea, ← eb]
+      have c2 : Quad.clampX (q.splitRange t 1) = q.splitRange t 1 := by
+        unfold Quad.clampX
+        rw [ea', eb', quad_sample_x, quad_sample_x, ecx', h2, ← ecx']
+        cases h : q.splitRange t 1 with
+        | mk a c b => rw [h] at ea' eb'; simp only at ea' eb'; rw [← ea', ← eb']
+      rw [c1, c2]
+  · unfold Quad.yMonotonicPieces Quad.yMonotonicRanges
+    rcases hy : q.localYExtremumT with _ | t
+    · simp only [Quad.rangesAt, List.map_cons, List.map_nil, Scalar.zero, Scalar.one, sc_zero, sc_one]
+      congr 1
+      apply quad_ext <;> geom_ring
+    · simp only [Quad.rangesAt, List.map_cons, List.map_nil, Scalar.zero, Scalar.one, sc_zero, sc_one]
+      rw [(quad_split_eq_splitRange q t).1, (quad_split_eq_splitRange q t).2]
+
+
+/-! ## Elliptic arcs
+
+`sin`, `cos`, `tan`, `atan`, `fmod`, `π` are parameters (`[Transc K] [Atan K]`); the laws used are
+hypotheses, all true of the real functions. -/
+
+
+section arc
+
+variable [Transc K]
+
+
+/-- **Arc extremum parameters, positive sweep (the `_partial` of the full statement).**
+For `sweep > 0` every parameter emitted by `for_each_extremum_inner(a1, a2)` lies in `[0,1)` and
+its angle is `a1` or `a2` up to a multiple of `2π`.
+The full statement (all sweeps) is false of the current code: `arc_extremum_params_neg_witness`. -/
+theorem arc_extremum_params_pos_partial (L : AngleLaws K) (arc : Arc K) (a1 a2 : K) (hs : 0 < arc.sweep) :
+    ∀ t ∈ arc.extremumInner a1 a2, 0 ≤ t ∧ t < 1 ∧
+      ∃ k : ℤ, arc.getAngle t = a1 + k * tau ∨ arc.getAngle t = a2 + k * tau := by
+  intro t ht
+  have habs : Scalar.abs arc.sweep = arc.sweep := by rw [sc_abs]; exact abs_of_pos hs
+  have key : ∀ b a : K, (∃ k : ℤ, b = (a - arc.start) + k * tau) → 0 ≤ b →
+      t ∈ Arc.emitPos b arc.sweep → 0 ≤ t ∧ t < 1 ∧ ∃ k : ℤ, arc.getAngle t = a + k * tau := by
+    intro b a ⟨k, hk⟩ hb0 hm
+    unfold Arc.emitPos at hm
+    split_ifs at hm with hlt
+    · simp only [List.mem_singleton] at hm
+      subst hm
+      refine ⟨div_nonneg hb0 (le_of_lt hs), (div_lt_one hs).2 hlt, k, ?_⟩
+      unfold Arc.getAngle
+      rw [mul_div_cancel₀ _ (ne_of_gt hs), hk]; ring
+    · simp at hm
+  have hge : arc.sweep ≥ Scalar.zero := by simp only [Scalar.zero, sc_zero]; exact le_of_lt hs
+  unfold Arc.extremumInner at ht
+  simp only [habs, if_pos hge, List.mem_append] at ht
+  have c1 := L.cong (a1 - arc.start)
+  have c2 := L.cong (a2 - arc.start)
+  have r1 := (L.range (a1 - arc.start)).1
+  have r2 := (L.range (a2 - arc.start)).1
+  unfold Arc.ordFst Arc.ordSnd at ht
+  split_ifs at ht with hsw
+  · rcases ht with ht | ht
+    · obtain ⟨p, q, k, e⟩ := key _ a2 c2 r2 ht; exact ⟨p, q, k, Or.inr e⟩
+    · obtain ⟨p, q, k, e⟩ := key _ a1 c1 r1 ht; exact ⟨p, q, k, Or.inl e⟩
+  · rcases ht with ht | ht
+    · obtain ⟨p, q, k, e⟩ := key _ a1 c1 r1 ht; exact ⟨p, q, k, Or.inl e⟩
+    · obtain ⟨p, q, k, e⟩ := key _ a2 c2 r2 ht; exact ⟨p, q, k, Or.inr e⟩
+
+
+/-- … and for `0 < sweep ≤ 2π` nothing is missed: every `t ∈ [0,1)` whose angle is `a1` or `a2`
+(mod `2π`) is emitted. -/
+theorem arc_extremum_params_pos_complete_partial (L : AngleLaws K) (arc : Arc K) (a1 a2 : K)
+    (hs : 0 < arc.sweep) (hs2 : arc.sweep ≤ tau) (t : K) (h0 : 0 ≤ t) (h1 : t < 1) (k : ℤ)
+    (h : arc.getAngle t = a1 + k * tau ∨ arc.getAngle t = a2 + k * tau) :
+    t ∈ arc.extremumInner a1 a2 := by
+  have habs : Scalar.abs arc.sweep = arc.sweep := by rw [sc_abs]; exact abs_of_pos hs
+  have hge : arc.sweep ≥ Scalar.zero := by simp only [Scalar.zero, sc_zero]; exact le_of_lt hs
+  have st0 : 0 ≤ arc.sweep * t := mul_nonneg (le_of_lt hs) h0
+  have st1 : arc.sweep * t < arc.sweep := by
+    have := mul_lt_mul_of_pos_left h1 hs; linarith
+  have key : ∀ a : K, arc.getAngle t = a + k * tau → t ∈ Arc.emitPos (Arc.positive (a - arc.start)) arc.sweep := by
+    intro a ha
+    have hp : Arc.positive (a - arc.start) = arc.sweep * t := by
+      apply positive_unique L _ _ st0 (lt_of_lt_of_le st1 hs2) (k)
+      unfold Arc.getAngle at ha; linear_combination ha
+    unfold Arc.emitPos
+    rw [hp, if_pos st1, List.mem_singleton, mul_div_cancel_left₀ _ (ne_of_gt hs)]
+  unfold Arc.extremumInner
+  simp only [habs, if_pos hge, List.mem_append]
+  unfold Arc.ordFst Arc.ordSnd
+  split_ifs with hsw
+  · rcases h with h | h
+    · right; exact key a1 h
+    · left; exact key a2 h
+  · rcases h with h | h
+    · left; exact key a1 h
+    · right; exact key a2 h
+
+
+variable [Atan K]
+
+
+/-- **Witness: the arc extremum statement is false for negative sweeps.**
+For the arc above lyon's `for_each_local_x_extremum_t` emits exactly one parameter,
+`(2π − 1/2)/2 ≈ 2.89 > 1`, although the x-extremum (angle `0 = x_ext_angle`) is reached at
+`t = 1/4 ∈ [0,1]`, which is not emitted. -/
+theorem arc_extremum_params_neg_witness (L : AngleLaws K)
+    (htan : Transc.tan (0 : K) = 0) (hatan : Atan.atan (0 : K) = 0) :
+    (negArc (K := K)).localXExtremaT = [((2 : K) * Transc.pi - 1/2) / 2] ∧
+    (1 : K) < ((2 : K) * Transc.pi - 1/2) / 2 ∧
+    (negArc (K := K)).getAngle (1/4) = (negArc (K := K)).xExtAngle ∧
+    (1/4 : K) ∉ (negArc (K := K)).localXExtremaT := by
+  have p3 := L.pi_gt
+  have p4 := L.pi_lt
+  have hx : (negArc (K := K)).xExtAngle = 0 := by
+    simp only [Arc.xExtAngle, negArc, htan, mul_zero, zero_div, hatan, neg_zero]
+  have hb1 : Arc.positive ((0 : K) - 1/2) = 2 * Transc.pi - 1/2 := by
+    apply positive_unique L _ _ (by linarith) (by unfold tau; linarith) 1
+    unfold tau; push_cast; ring
+  have hb2 : Arc.positive ((Transc.pi + 0 : K) - 1/2) = Transc.pi - 1/2 := by
+    apply positive_unique L _ _ (by linarith) (by unfold tau; linarith) 0
+    push_cast; ring
+  have hlist : (negArc (K := K)).localXExtremaT = [((2 : K) * Transc.pi - 1/2) / 2] := by
+    unfold Arc.localXExtremaT
+    rw [hx]
+    unfold Arc.extremumInner
+    simp only [negArc, hb1, hb2, Arc.signum, Arc.ordFst, Arc.ordSnd, Arc.emitNeg, sc_abs,
+      Scalar.zero, Scalar.one, Scalar.two, sc_zero, sc_one, sc_two]
+    have a1 : |(-2 : K)| = 2 := by rw [abs_neg]; exact abs_of_pos (by norm_num)
+    rw [a1]
+    have c0 : ¬ ((-2 : K) ≥ 0) := by norm_num
+    have c1 : (-2 : K) < 0 := by norm_num
+    have c2 : ¬ ((2 * Transc.pi - 1/2) * (-1 : K) > (Transc.pi - 1/2) * (-1 : K)) := by
+      rw [gt_iff_lt, not_lt]; linarith
+    have c3 : (2 * Transc.pi - 1/2 : K) > 2 * Transc.pi - 2 := by linarith
+    have c4 : ¬ ((Transc.pi - 1/2 : K) > 2 * Transc.pi - 2) := by rw [gt_iff_lt, not_lt]; linarith
+    simp only [c0, c1, c2, c3, c4, if_true, if_false, List.append_nil, List.nil_append, List.cons_append]
+  refine ⟨hlist, ?_, ?_, ?_⟩
+  · rw [lt_div_iff₀ (by norm_num)]; linarith
+  · rw [hx]; simp only [Arc.getAngle, negArc]; norm_num
+  · rw [hlist, List.mem_singleton]
+    intro h
+    have : ((2 : K) * Transc.pi - 1/2) / 2 = 1/4 := h.symm
+    rw [div_eq_iff (by norm_num)] at this
+    linarith
+
+
+/-- **Witness: the exact bounding box of that arc misses part of it.**  With `cos 0 = 1`,
+`sin 0 = 0` and `cos x < 1` for `0 < |x| < 2π`, the box's `max.x` is below `x(1/4) = 10`. -/
+theorem arc_box_neg_sweep_witness (L : AngleLaws K)
+    (htan : Transc.tan (0 : K) = 0) (hatan : Atan.atan (0 : K) = 0)
+    (hc0 : Transc.cos (0 : K) = 1) (hs0 : Transc.sin (0 : K) = 0)
+    (hcos : ∀ x : K, x ≠ 0 → |x| < tau → Transc.cos x < 1) :
+    (negArc (K := K)).boundingBox.max.x < ((negArc (K := K)).sample (1/4)).x ∧
+    ¬ Box.Contains (negArc (K := K)).boundingBox ((negArc (K := K)).sample (1/4)) := by
+  have p3 := L.pi_gt
+  have p4 := L.pi_lt
+  obtain ⟨hlist, _, _, _⟩ := arc_extremum_params_neg_witness L htan hatan
+  have sx : ∀ t : K, ((negArc (K := K)).sample t).x = 10 * Transc.cos (1/2 + -2 * t) := by
+    intro t
+    simp only [Arc.sample, Arc.sampleEllipse, Arc.rotate, Arc.getAngle, negArc, P.add_def, hc0, hs0]
+    ring
+  have hmain : (negArc (K := K)).boundingBox.max.x < 10 := by
+    simp only [Arc.boundingBox, Box.ofRanges, Arc.boundingRangeX, hlist, List.foldl_cons, List.foldl_nil,
+      Arc.growX, sx, emax_eq, sc_max, Scalar.zero, Scalar.one, sc_zero, sc_one]
+    have k1 : Transc.cos ((1/2 : K) + -2 * 0) < 1 :=
+      hcos _ (by norm_num) (by rw [abs_of_pos (by norm_num)]; unfold tau; linarith)
+    have k2 : Transc.cos ((1/2 : K) + -2 * 1) < 1 :=
+      hcos _ (by norm_num) (by
+        rw [show (1/2 : K) + -2 * 1 = -(3/2) by norm_num, abs_neg, abs_of_pos (by norm_num)]
+        unfold tau; linarith)
+    have k3 : Transc.cos ((1/2 : K) + -2 * ((2 * Transc.pi - 1/2) / 2)) < 1 :=
+      hcos _ (by intro h; have : (1 : K) - 2 * Transc.pi = 0 := by linear_combination h
+                 linarith) (by
+        rw [show (1/2 : K) + -2 * ((2 * Transc.pi - 1/2) / 2) = -(2 * Transc.pi - 1) by ring, abs_neg,
+          abs_of_pos (by linarith)]
+        unfold tau; linarith)
+    rw [max_lt_iff, max_lt_iff]
+    refine ⟨⟨?_, ?_⟩, ?_⟩ <;> linarith
+  have hval : ((negArc (K := K)).sample (1/4)).x = 10 := by
+    rw [sx, show (1/2 : K) + -2 * (1/4) = 0 by norm_num, hc0]; norm_num
+  refine ⟨by rw [hval]; exact hmain, ?_⟩
+  intro hcon
+  have := hcon.2.1
+  rw [hval] at this
+  exact absurd hmain (not_lt.2 this)
+
+
+/-- **Witness: `fast_bounding_box` does not contain the arc.**  The box around the centre is
+rotated about the origin: the result is `(−5,90)–(5,110)` while the arc starts at `(100,10)`. -/
+theorem arc_fast_box_witness (sweep r : K)
+    (hcr : Transc.cos r = 0) (hsr : Transc.sin r = 1)
+    (hc0 : Transc.cos (0 : K) = 1) (hs0 : Transc.sin (0 : K) = 0) :
+    (offArc sweep r).fastBoundingBox = ⟨⟨-5, 90⟩, ⟨5, 110⟩⟩ ∧
+    (offArc sweep r).sample 0 = ⟨100, 10⟩ ∧
+    ¬ Box.Contains (offArc sweep r).fastBoundingBox ((offArc sweep r).sample 0) := by
+  have hb : (offArc sweep r).fastBoundingBox = ⟨⟨-5, 90⟩, ⟨5, 110⟩⟩ := by
+    simp only [Arc.fastBoundingBox, Arc.outerTransformedBox, Arc.rotationXf, Box.fromPoints, Xf.apply,
+      offArc, hcr, hsr, P.add_def, P.sub_def, List.foldl_cons, List.foldl_nil, Box.grow,
+      Scalar.zero, sc_zero]
+    norm_num
+  have hp : (offArc sweep r).sample 0 = ⟨100, 10⟩ := by
+    simp only [Arc.sample, Arc.sampleEllipse, Arc.rotate, Arc.getAngle, offArc, P.add_def, hcr, hsr,
+      mul_zero, add_zero, hc0, hs0]
+    norm_num
+  refine ⟨hb, hp, ?_⟩
+  rw [hb, hp]
+  intro h
+  have := h.2.1
+  norm_num at this
+
+
+/-- **`fast_bounding_box` contains the arc when there is no rotation (the `_partial`).**
+With `cos x_rotation = 1`, `sin x_rotation = 0`, non-negative radii and `|cos|, |sin| ≤ 1` at the
+sampled angle, the fast box contains the sample.  (For `x_rotation ≠ 0` and a centre off the
+origin the statement is false of the current code: `arc_fast_box_witness`.) -/
+theorem arc_fast_box_contains_partial (arc : Arc K) (t : K)
+    (hcr : Transc.cos arc.xrot = 1) (hsr : Transc.sin arc.xrot = 0)
+    (hrx : 0 ≤ arc.radii.x) (hry : 0 ≤ arc.radii.y)
+    (hc : |Transc.cos (arc.getAngle t)| ≤ 1) (hs : |Transc.sin (arc.getAngle t)| ≤ 1) :
+    Box.Contains arc.fastBoundingBox (arc.sample t) := by
+  have hb : arc.fastBoundingBox = ⟨arc.center - arc.radii, arc.center + arc.radii⟩ := by
+    have h1 : arc.center.x - arc.radii.x ≤ arc.center.x + arc.radii.x := by linarith
+    have h2 : arc.center.y - arc.radii.y ≤ arc.center.y + arc.radii.y := by linarith
+    simp only [Arc.fastBoundingBox, Arc.outerTransformedBox, Arc.rotationXf, Box.fromPoints, Xf.apply,
+      hcr, hsr, P.add_def, P.sub_def, List.foldl_cons, List.foldl_nil, grow_eq, Scalar.zero, sc_zero,
+      mul_one, mul_zero, sub_zero, add_zero, zero_add,
+      min_eq_left h1, min_eq_right h1, max_eq_left h1, max_eq_right h1,
+      min_eq_left h2, min_eq_right h2, max_eq_left h2, max_eq_right h2, min_self, max_self]
+  rw [hb]
+  have hp : arc.sample t = ⟨arc.center.x + arc.radii.x * Transc.cos (arc.getAngle t),
+      arc.center.y + arc.radii.y * Transc.sin (arc.getAngle t)⟩ := by
+    simp only [Arc.sample, Arc.sampleEllipse, Arc.rotate, P.add_def, hcr, hsr, mul_one, mul_zero, sub_zero,
+      add_zero]
+  rw [hp]
+  obtain ⟨c0, c1⟩ := abs_le.1 hc
+  obtain ⟨s0, s1⟩ := abs_le.1 hs
+  simp only [Box.Contains, P.add_def, P.sub_def]
+  have m1 := mul_le_mul_of_nonneg_left c1 hrx
+  have m2 := mul_le_mul_of_nonneg_left c0 hrx
+  have m3 := mul_le_mul_of_nonneg_left s1 hry
+  have m4 := mul_le_mul_of_nonneg_left s0 hry
+  refine ⟨by linarith, by linarith, by linarith, by linarith⟩
+
+
+end arc
+
+
+/-! ## Cubic Bézier segments -/
+
+
+/-- the fast box (hull of the control points) contains the curve -/
+theorem cubic_fast_box_contains [Transc K] (c : Cubic K) (t : K) (h0 : 0 ≤ t) (h1 : t ≤ 1) :
+    Box.Contains c.fastBoundingBox (c.sample t) := by
+  unfold Box.Contains
+  rw [cubic_sample_x, cubic_sample_y]
+  have hx := c1_fast_range_contains c.a.x c.c1.x c.c2.x c.b.x t h0 h1
+  have hy := c1_fast_range_contains c.a.y c.c1.y c.c2.y c.b.y t h0 h1
+  exact ⟨hx.1, hx.2, hy.1, hy.2⟩
+
+
+section roots
+
+variable [Transc K]
+
+
+/-- **Cubic critical parameters are roots of the derivative**: a parameter is reported by
+`for_each_local_x_extremum_t` iff it lies in `(0,1)` and `dx` vanishes there (for a coordinate
+whose derivative is not identically zero); likewise for `y`. -/
+theorem cubic_critical_roots (hsq : ∀ d : K, 0 ≤ d → Transc.sqrt d * Transc.sqrt d = d) (c : Cubic K) (t : K) :
+    ((Cubic1.ca c.a.x c.c1.x c.c2.x c.b.x ≠ 0 ∨ Cubic1.cb c.a.x c.c1.x c.c2.x ≠ 0) →
+      (t ∈ c.localXExtremaT ↔ (0 < t ∧ t < 1 ∧ c.dx t = 0))) ∧
+    ((Cubic1.ca c.a.y c.c1.y c.c2.y c.b.y ≠ 0 ∨ Cubic1.cb c.a.y c.c1.y c.c2.y ≠ 0) →
+      (t ∈ c.localYExtremaT ↔ (0 < t ∧ t < 1 ∧ c.dy t = 0))) := by
+  constructor <;> intro h
+  · rw [cubic_dx_eq]; exact c1_extremaOf_iff hsq _ _ _ t h
+  · rw [cubic_dy_eq]; exact c1_extremaOf_iff hsq _ _ _ t h
+
+
+/-- reported parameters are interior critical points, with no side condition -/
+theorem cubic_extremum_is_critical (hsq : ∀ d : K, 0 ≤ d → Transc.sqrt d * Transc.sqrt d = d)
+    (c : Cubic K) (t : K) :
+    (t ∈ c.localXExtremaT → 0 < t ∧ t < 1 ∧ c.dx t = 0) ∧
+    (t ∈ c.localYExtremaT → 0 < t ∧ t < 1 ∧ c.dy t = 0) := by
+  have gen : ∀ a b cc : K, t ∈ Cubic1.extremaOf a b cc → 0 < t ∧ t < 1 ∧ a * t^2 + b * t + cc = 0 := by
+    intro a b cc h
+    by_cases hnz : a ≠ 0 ∨ b ≠ 0
+    · exact (c1_extremaOf_iff hsq a b cc t hnz).1 h
+    · rw [not_or, not_not, not_not] at hnz
+      unfold Cubic1.extremaOf at h
+      simp only [sc_beq, bne_iff, Scalar.zero, sc_zero] at h
+      rw [if_pos hnz.1, if_neg (not_not.2 hnz.2)] at h
+      simp at h
+  constructor <;> intro h
+  · rw [cubic_dx_eq]; exact gen _ _ _ h
+  · rw [cubic_dy_eq]; exact gen _ _ _ h
+
+
+end roots
+
+
+section cubicranges
+
+variable [Transc K]
+
+
+/-- **Monotone ranges of a cubic partition `[0,1]`** (`for_each_monotonic_range`,
+`for_each_x_monotonic_range`, `for_each_y_monotonic_range`): consecutive, from 0 to 1, each of
+positive length. -/
+theorem cubic_monotone_ranges_partition (hsq : ∀ d : K, 0 ≤ d → Transc.sqrt d * Transc.sqrt d = d)
+    (c : Cubic K) :
+    Chain 0 c.monotonicRanges 1 ∧ Chain 0 c.xMonotonicRanges 1 ∧ Chain 0 c.yMonotonicRanges 1 := by
+  have one : ∀ a b cc : K, Chain 0 (Cubic.rangesAll Scalar.zero (Cubic1.extremaOf a b cc)) 1 := by
+    intro a b cc
+    simp only [Scalar.zero, sc_zero]
+    apply rangesAll_chain
+    · rw [List.pairwise_cons]
+      exact ⟨fun x hx => (c1_extremaOf_interior _ _ _ x hx).1, c1_extremaOf_strict hsq a b cc⟩
+    · intro x hx
+      rcases List.mem_cons.1 hx with rfl | hx
+      · norm_num
+      · exact (c1_extremaOf_interior _ _ _ x hx).2
+  refine ⟨?_, one _ _ _, one _ _ _⟩
+  unfold Cubic.monotonicRanges
+  simp only [Scalar.zero, sc_zero]
+  obtain ⟨hs, hm⟩ := sortAsc_spec (c.localXExtremaT ++ c.localYExtremaT)
+  have hint : ∀ x ∈ Cubic.sortAsc (c.localXExtremaT ++ c.localYExtremaT), 0 < x ∧ x < 1 := by
+    intro x hx
+    rw [hm, List.mem_append] at hx
+    rcases hx with hx | hx <;> exact c1_extremaOf_interior _ _ _ x hx
+  apply rangesSkip_chain
+  · rw [List.pairwise_cons]; exact ⟨fun x hx => le_of_lt (hint x hx).1, hs⟩
+  · intro x hx
+    rcases List.mem_cons.1 hx with rfl | hx
+    · norm_num
+    · exact (hint x hx).2
+
+
+/-- **Exact box of a cubic (`_partial`).**  The four sides are attained at the reported
+parameters, which lie in `[0,1]` (so the box is *tight*: it is inside the hull of the curve and
+inside the fast box), and the box contains both endpoints and the curve points at all reported
+critical parameters.  Missing for the full statement: that the curve stays inside *between*
+consecutive critical parameters (monotonicity of a cubic whose derivative has no root in an
+interval); this part is covered by the oracle's dense sampling only. -/
+theorem cubic_box_partial (c : Cubic K) :
+    (0 ≤ c.xMinimumT ∧ c.xMinimumT ≤ 1 ∧ (c.sample c.xMinimumT).x = c.boundingBox.min.x) ∧
+    (0 ≤ c.xMaximumT ∧ c.xMaximumT ≤ 1 ∧ (c.sample c.xMaximumT).x = c.boundingBox.max.x) ∧
+    (0 ≤ c.yMinimumT ∧ c.yMinimumT ≤ 1 ∧ (c.sample c.yMinimumT).y = c.boundingBox.min.y) ∧
+    (0 ≤ c.yMaximumT ∧ c.yMaximumT ≤ 1 ∧ (c.sample c.yMaximumT).y = c.boundingBox.max.y) ∧
+    Box.Contains c.boundingBox (c.sample 0) ∧ Box.Contains c.boundingBox (c.sample 1) ∧
+    (∀ t ∈ c.localXExtremaT, c.boundingBox.min.x ≤ (c.sample t).x ∧ (c.sample t).x ≤ c.boundingBox.max.x) ∧
+    (∀ t ∈ c.localYExtremaT, c.boundingBox.min.y ≤ (c.sample t).y ∧ (c.sample t).y ≤ c.boundingBox.max.y) ∧
+    Box.Inside c.boundingBox c.fastBoundingBox := by
+  obtain ⟨x1, x2, x3⟩ := c1_range_partial c.a.x c.c1.x c.c2.x c.b.x
+  obtain ⟨y1, y2, y3⟩ := c1_range_partial c.a.y c.c1.y c.c2.y c.b.y
+  refine ⟨⟨x2.1, x2.2, by rw [cubic_sample_x]; rfl⟩, ⟨x1.1, x1.2, by rw [cubic_sample_x]; rfl⟩,
+    ⟨y2.1, y2.2, by rw [cubic_sample_y]; rfl⟩, ⟨y1.1, y1.2, by rw [cubic_sample_y]; rfl⟩, ?_, ?_, ?_, ?_, ?_⟩
+  · unfold Box.Contains; rw [cubic_sample_x, cubic_sample_y]
+    exact ⟨(x3 0 (Or.inl rfl)).1, (x3 0 (Or.inl rfl)).2, (y3 0 (Or.inl rfl)).1, (y3 0 (Or.inl rfl)).2⟩
+  · unfold Box.Contains; rw [cubic_sample_x, cubic_sample_y]
+    exact ⟨(x3 1 (Or.inr (Or.inl rfl))).1, (x3 1 (Or.inr (Or.inl rfl))).2,
+      (y3 1 (Or.inr (Or.inl rfl))).1, (y3 1 (Or.inr (Or.inl rfl))).2⟩
+  · intro t ht; rw [cubic_sample_x]; exact x3 t (Or.inr (Or.inr ht))
+  · intro t ht; rw [cubic_sample_y]; exact y3 t (Or.inr (Or.inr ht))
+  · exact ⟨(c1_fast_range_contains _ _ _ _ _ x2.1 x2.2).1, (c1_fast_range_contains _ _ _ _ _ x1.1 x1.2).2,
+      (c1_fast_range_contains _ _ _ _ _ y2.1 y2.2).1, (c1_fast_range_contains _ _ _ _ _ y1.1 y1.2).2⟩
+
+
+/-- **Witness: `for_each_monotonic` does not retrace a monotone cubic.**  The cubic
+`(0,0) (1,1) (−1,2) (4,3)` has no x- or y-extremum and both coordinates are monotone on `[0,1]`;
+lyon reports the single range `0..1`, but the piece it hands out has `ctrl2.x` clamped from `−1`
+to `0`, and at `u = 1/2` it is at `x = 7/8` where the curve is at `x = 1/2`.  (For quadratics the
+clamp is the identity: `quad_clamp_noop`.) -/
+theorem cubic_clamp_distorts_witness :
+    (clampCubic (K := K)).localXExtremaT = [] ∧ (clampCubic (K := K)).localYExtremaT = [] ∧
+    (clampCubic (K := K)).monotonicRanges = [(0, 1)] ∧
+    MonoOn (clampCubic (K := K)).x 0 1 ∧ MonoOn (clampCubic (K := K)).y 0 1 ∧
+    (clampCubic (K := K)).monotonicPieces = [⟨⟨0, 0⟩, ⟨1, 1⟩, ⟨0, 2⟩, ⟨4, 3⟩⟩] ∧
+    (∀ p ∈ (clampCubic (K := K)).monotonicPieces,
+      (p.sample (1/2)).x = 7/8 ∧ ((clampCubic (K := K)).sample (0 + (1 - 0) * (1/2))).x = 1/2) := by
+  have hx : (clampCubic (K := K)).localXExtremaT = [] := by
+    simp only [Cubic.localXExtremaT, Cubic1.localExtrema, Cubic1.extremaOf, Cubic1.disc, c1_ca, c1_cb, c1_cc,
+      clampCubic, sc_beq, bne_iff, Scalar.zero, Scalar.four, sc_zero, sc_four]
+    norm_num
+  have hy : (clampCubic (K := K)).localYExtremaT = [] := by
+    simp only [Cubic.localYExtremaT, Cubic1.localExtrema, Cubic1.extremaOf, Cubic1.disc, c1_ca, c1_cb, c1_cc,
+      clampCubic, sc_beq, bne_iff, Scalar.zero, Scalar.four, sc_zero, sc_four]
+    norm_num
+  have hr : (clampCubic (K := K)).monotonicRanges = [(0, 1)] := by
+    simp only [Cubic.monotonicRanges, hx, hy, List.append_nil, Cubic.sortAsc, List.foldr_nil,
+      Cubic.rangesSkip, Scalar.zero, Scalar.one, sc_zero, sc_one]
+  have hsr : (clampCubic (K := K)).splitRange 0 1 = clampCubic := by
+    unfold clampCubic
+    simp only [Cubic.splitRange, Cubic.mk.injEq]
+    refine ⟨?_, ?_, ?_, ?_⟩ <;> (apply P.ext' <;> (simp only [geom, Nat.cast_ofNat, Nat.cast_one, Nat.cast_zero]; norm_num))
+  have hp : (clampCubic (K := K)).monotonicPieces = [⟨⟨0, 0⟩, ⟨1, 1⟩, ⟨0, 2⟩, ⟨4, 3⟩⟩] := by
+    unfold Cubic.monotonicPieces
+    rw [hr]
+    simp only [List.map_cons, List.map_nil, hsr]
+    simp only [Cubic.clampXY, clampCubic, clampTo, sc_min, sc_max, Cubic.mk.injEq, List.cons.injEq, and_true]
+    refine ⟨trivial, ?_, ?_⟩ <;> (apply P.ext' <;> norm_num)
+  refine ⟨hx, hy, hr, ?_, ?_, hp, ?_⟩
+  · left; intro s u h0 h1 h2
+    rw [cubic_x_eq, cubic_x_eq, c1_ev, c1_ev]
+    simp only [clampCubic]
+    nlinarith [mul_nonneg (sub_nonneg.2 h1) (sq_nonneg (u + s - 3/5)),
+      mul_nonneg (sub_nonneg.2 h1) (sq_nonneg (u - s)), sub_nonneg.2 h1]
+  · left; intro s u h0 h1 h2
+    rw [cubic_y_eq, cubic_y_eq, c1_ev, c1_ev]
+    simp only [clampCubic]
+    nlinarith
+  · intro p hp'
+    rw [hp, List.mem_singleton] at hp'
+    subst hp'
+    constructor
+    · rw [cubic_sample_x, c1_ev]; norm_num
+    · rw [cubic_sample_x, c1_ev]; simp only [clampCubic]; norm_num
+
+
+end cubicranges
+
+
+/-! ## Line segments, triangles -/
+
+
+/-- the box of a line segment is spanned by its endpoints (tight) and contains the segment -/
+theorem seg_box (s : Seg K) :
+    s.boundingBox = ⟨⟨min s.a.x s.b.x, min s.a.y s.b.y⟩, ⟨max s.a.x s.b.x, max s.a.y s.b.y⟩⟩ ∧
+    ∀ t, 0 ≤ t → t ≤ 1 → Box.Contains s.boundingBox (s.sample t) := by
+  have e : s.boundingBox = ⟨⟨min s.a.x s.b.x, min s.a.y s.b.y⟩, ⟨max s.a.x s.b.x, max s.a.y s.b.y⟩⟩ := by
+    simp only [Seg.boundingBox, Seg.boundingRangeX, Seg.boundingRangeY, Box.ofRanges, minMax_eq]
+  refine ⟨e, fun t h0 h1 => ?_⟩
+  rw [e]
+  simp only [Box.Contains, Seg.sample, P.lerp, Scalar.one, sc_one]
+  have u : 0 ≤ 1 - t := by linarith
+  have ax := min_le_left s.a.x s.b.x
+  have bx := min_le_right s.a.x s.b.x
+  have ay := min_le_left s.a.y s.b.y
+  have by' := min_le_right s.a.y s.b.y
+  have ax' := le_max_left s.a.x s.b.x
+  have bx' := le_max_right s.a.x s.b.x
+  have ay' := le_max_left s.a.y s.b.y
+  have by'' := le_max_right s.a.y s.b.y
+  refine ⟨?_, ?_, ?_, ?_⟩
+  · nlinarith [mul_le_mul_of_nonneg_left ax u, mul_le_mul_of_nonneg_left bx h0]
+  · nlinarith [mul_le_mul_of_nonneg_left ax' u, mul_le_mul_of_nonneg_left bx' h0]
+  · nlinarith [mul_le_mul_of_nonneg_left ay u, mul_le_mul_of_nonneg_left by' h0]
+  · nlinarith [mul_le_mul_of_nonneg_left ay' u, mul_le_mul_of_nonneg_left by'' h0]
+
+
+/-- the box of a triangle is spanned by its vertices and contains every convex combination -/
+theorem tri_box (t : Tri K) :
+    t.boundingBox = ⟨⟨min (min t.a.x t.b.x) t.c.x, min (min t.a.y t.b.y) t.c.y⟩,
+                     ⟨max (max t.a.x t.b.x) t.c.x, max (max t.a.y t.b.y) t.c.y⟩⟩ ∧
+    ∀ u v w : K, 0 ≤ u → 0 ≤ v → 0 ≤ w → u + v + w = 1 →
+      Box.Contains t.boundingBox ⟨u * t.a.x + v * t.b.x + w * t.c.x, u * t.a.y + v * t.b.y + w * t.c.y⟩ := by
+  have e : t.boundingBox = ⟨⟨min (min t.a.x t.b.x) t.c.x, min (min t.a.y t.b.y) t.c.y⟩,
+                     ⟨max (max t.a.x t.b.x) t.c.x, max (max t.a.y t.b.y) t.c.y⟩⟩ := by
+    simp only [Tri.boundingBox, Tri.boundingRangeX, Tri.boundingRangeY, Box.ofRanges, sc_min, sc_max]
+  refine ⟨e, fun u v w hu hv hw hs => ?_⟩
+  rw [e]
+  simp only [Box.Contains]
+  have key : ∀ (a b c m : K), m ≤ a → m ≤ b → m ≤ c → m ≤ u * a + v * b + w * c := by
+    intro a b c m ha hb hc
+    have h1 := mul_le_mul_of_nonneg_left ha hu
+    have h2 := mul_le_mul_of_nonneg_left hb hv
+    have h3 := mul_le_mul_of_nonneg_left hc hw
+    have hm : m = u * m + v * m + w * m := by rw [← add_mul, ← add_mul, hs, one_mul]
+    linarith
+  have key2 : ∀ (a b c m : K), a ≤ m → b ≤ m → c ≤ m → u * a + v * b + w * c ≤ m := by
+    intro a b c m ha hb hc
+    have h1 := mul_le_mul_of_nonneg_left ha hu
+    have h2 := mul_le_mul_of_nonneg_left hb hv
+    have h3 := mul_le_mul_of_nonneg_left hc hw
+    have hm : m = u * m + v * m + w * m := by rw [← add_mul, ← add_mul, hs, one_mul]
+    linarith
+  refine ⟨key _ _ _ _ ?_ ?_ ?_, key2 _ _ _ _ ?_ ?_ ?_, key _ _ _ _ ?_ ?_ ?_, key2 _ _ _ _ ?_ ?_ ?_⟩
+  · exact le_trans (min_le_left _ _) (min_le_left _ _)
+  · exact le_trans (min_le_left _ _) (min_le_right _ _)
+  · exact min_le_right _ _
+  · exact le_trans (le_max_left _ _) (le_max_left _ _)
+  · exact le_trans (le_max_right _ _) (le_max_left _ _)
+  · exact le_max_right _ _
+  · exact le_trans (min_le_left _ _) (min_le_left _ _)
+  · exact le_trans (min_le_left _ _) (min_le_right _ _)
+  · exact min_le_right _ _
+  · exact le_trans (le_max_left _ _) (le_max_left _ _)
+  · exact le_trans (le_max_right _ _) (le_max_left _ _)
+  · exact le_max_right _ _
+
+
+/-! ## Paths: `lyon_algorithms::aabb` -/
+
+
+section aabb
+
+variable [Transc K]
+
+
+/-- **`aabb::bounding_box` is the join of the event boxes** (before the empty-path test) … -/
+theorem aabb_fold (b0 : Box K) (evs : List (PEv K)) :
+    evs.foldl Aabb.tightStep b0 = (evs.filterMap tightBox).foldl boxJoin b0 := by
+  induction evs generalizing b0 with
+  | nil => rfl
+  | cons e r ih =>
+    rw [List.foldl_cons, ih, tightStep_eq]
+    cases h : tightBox e <;> simp [List.filterMap_cons, h]
+
+
+/-- … **and does not depend on the order of the events.** -/
+theorem aabb_fold_perm (b0 : Box K) (l1 l2 : List (PEv K)) (h : l1.Perm l2) :
+    l1.foldl Aabb.tightStep b0 = l2.foldl Aabb.tightStep b0 := by
+  rw [aabb_fold, aabb_fold]
+  exact (h.filterMap tightBox).foldl_eq' (fun x _ y _ z => join_right_comm z x y) b0
+
+
+/-- **The path box contains every point of every segment (`_partial`).**  For every quadratic
+event of the path and every `t ∈ [0,1]` the sampled point lies in `aabb::bounding_box`, and every
+`begin`/`line_to` endpoint does.  Hypothesis `hne`: the accumulated minimum is not the sentinel
+`(MAX, MAX)` — lyon returns the zero box in that case (empty path; also a path sitting exactly at
+`f32::MAX`, for which the statement is false).  Cubic events: the cubic's own box is inside the
+path box (`aabb_fold` + `foldl_join_inside`); that the cubic's box contains the cubic between
+critical points is not a theorem (see `cubic_box_partial`). -/
+theorem aabb_box_contains_partial (big : K) (evs : List (PEv K))
+    (hne : ¬ ((evs.foldl Aabb.tightStep (Aabb.start big)).min == (⟨big, big⟩ : P K)) = true) :
+    (∀ f c p, PEv.quad f c p ∈ evs → ∀ t, 0 ≤ t → t ≤ 1 →
+      Box.Contains (Aabb.boundingBox big evs) (Quad.sample ⟨f, c, p⟩ t)) ∧
+    (∀ p, PEv.begin p ∈ evs → Box.Contains (Aabb.boundingBox big evs) p) ∧
+    (∀ f p, PEv.line f p ∈ evs → Box.Contains (Aabb.boundingBox big evs) p) ∧
+    (∀ f c1 c2 p, PEv.cubic f c1 c2 p ∈ evs →
+      Box.Inside (Cubic.boundingBox ⟨f, c1, c2, p⟩) (Aabb.boundingBox big evs)) := by
+  have hb : Aabb.boundingBox big evs = (evs.filterMap tightBox).foldl boxJoin (Aabb.start big) := by
+    unfold Aabb.boundingBox Aabb.finish
+    rw [if_neg hne, aabb_fold]
+  have hin : ∀ e ∈ evs, ∀ x, tightBox e = some x → Box.Inside x (Aabb.boundingBox big evs) := by
+    intro e he x hx
+    rw [hb]
+    exact (foldl_join_inside _ _).2 x (List.mem_filterMap.2 ⟨e, he, hx⟩)
+  have cont : ∀ {x b : Box K} {p : P K}, Box.Inside x b → Box.Contains x p → Box.Contains b p := by
+    intro x b p h1 h2
+    exact ⟨le_trans h1.1 h2.1, le_trans h2.2.1 h1.2.1, le_trans h1.2.2.1 h2.2.2.1, le_trans h2.2.2.2 h1.2.2.2⟩
+  refine ⟨?_, ?_, ?_, ?_⟩
+  · intro f c p he t h0 h1
+    exact cont (hin _ he _ rfl) (quad_box_contains ⟨f, c, p⟩ t h0 h1)
+  · intro p he
+    exact cont (hin _ he ⟨p, p⟩ rfl) ⟨le_refl _, le_refl _, le_refl _, le_refl _⟩
+  · intro f p he
+    exact cont (hin _ he ⟨p, p⟩ rfl) ⟨le_refl _, le_refl _, le_refl _, le_refl _⟩
+  · intro f c1 c2 p he
+    exact hin _ he _ rfl
+
+
+end aabb
+
+
+/-! ## Non-vacuity: concrete instances satisfying the hypotheses used above -/
+
+
+/-- `quad_box_contains` etc.: a parameter in range -/
+example : (0:ℚ) ≤ 1/3 ∧ (1/3:ℚ) ≤ 1 := by norm_num
+
+
+/-- a quadratic with a reported interior x-extremum: `(0,0) (2,1) (1,0)` has `local_x_extremum_t = 2/3` -/
+example : Quad.localXExtremumT (⟨⟨0, 0⟩, ⟨2, 1⟩, ⟨1, 0⟩⟩ : Quad ℚ) = some (2/3) := by
+  show Quad1.localExt (0:ℚ) 2 1 = some (2/3)
+  rw [q1_localExt_some]; norm_num
+
+
+/-- `AngleLaws` holds for the toy instance (so the arc theorems are not vacuous) -/
+example : @AngleLaws ℚ _ _ _ toyTransc := by
+  letI := toyTransc
+  have hτ : (0:ℚ) < 22/7 + 22/7 := by norm_num
+  have hpos : ∀ x : ℚ, @Arc.positive ℚ _ toyTransc x = x - (22/7 + 22/7) * (⌊x / (22/7 + 22/7)⌋ : ℚ) ∧
+      0 ≤ x - (22/7 + 22/7) * (⌊x / (22/7 + 22/7)⌋ : ℚ) ∧
+      x - (22/7 + 22/7) * (⌊x / (22/7 + 22/7)⌋ : ℚ) < 22/7 + 22/7 := by
+    intro x
+    have h1 : ((⌊x / (22/7 + 22/7)⌋ : ℤ) : ℚ) ≤ x / (22/7 + 22/7) := Int.floor_le _
+    have h2 : x / (22/7 + 22/7) < (⌊x / (22/7 + 22/7)⌋ : ℚ) + 1 := Int.lt_floor_add_one _
+    rw [le_div_iff₀ hτ] at h1
+    rw [div_lt_iff₀ hτ] at h2
+    have nn : 0 ≤ x - (22/7 + 22/7) * (⌊x / (22/7 + 22/7)⌋ : ℚ) := by linarith
+    refine ⟨?_, nn, by linarith⟩
+    show (if Transc.fmod x (Transc.pi + Transc.pi) < Scalar.zero then _ else _) = _
+    have : ¬ (Transc.fmod x (Transc.pi + Transc.pi) < (Scalar.zero : ℚ)) := by
+      show ¬ (x - (22/7 + 22/7) * (⌊x / (22/7 + 22/7)⌋ : ℚ) < ((0 : ℕ) : ℚ))
+      rw [Nat.cast_zero, not_lt]; exact nn
+    rw [if_neg this]; rfl
+  refine ⟨by show (3:ℚ) < 22/7; norm_num, by show (22/7:ℚ) < 4; norm_num, fun x => ?_, fun x => ?_⟩
+  · exact ⟨(hpos x).1 ▸ (hpos x).2.1, (hpos x).1 ▸ (hpos x).2.2⟩
+  · refine ⟨-⌊x / (22/7 + 22/7)⌋, ?_⟩
+    rw [(hpos x).1]
+    show _ = x + ((-⌊x / (22/7 + 22/7)⌋ : ℤ) : ℚ) * (22/7 + 22/7)
+    push_cast; ring
+
+
+/-- the `sqrt` law used by the cubic theorems holds e.g. at `d = 4` for the toy instance, and the
+side conditions of the arc witnesses (`tan 0 = 0`, `cos 0 = 1`, `sin 0 = 0`) hold there too -/
+example : toyTransc.sqrt 4 * toyTransc.sqrt 4 = 4 ∧ toyTransc.tan 0 = 0 ∧ toyTransc.cos 0 = 1 ∧
+    toyTransc.sin 0 = 0 := by
+  refine ⟨?_, rfl, ?_, rfl⟩
+  · show (if (4:ℚ) = 4 then (2:ℚ) else 0) * (if (4:ℚ) = 4 then (2:ℚ) else 0) = 4
+    norm_num
+  · show (if (0:ℚ) = 0 then (1:ℚ) else 0) = 1
+    norm_num
+
+
+/-- a cubic coordinate with two interior critical points: `0, 3, -2, 1` has derivative
+`3(13 t² − 16 t + 3)... ` — here simply: the derivative is not identically zero -/
+example : Cubic1.ca (0:ℚ) 3 (-2) 1 ≠ 0 ∨ Cubic1.cb (0:ℚ) 3 (-2) ≠ 0 := by
+  left; rw [c1_ca]; norm_num
+
+
+/-- a positive-sweep arc and a parameter in range (hypotheses of the `_pos_partial` theorems) -/
+example : (0:ℚ) < 2 ∧ (2:ℚ) ≤ 22/7 + 22/7 ∧ (0:ℚ) ≤ 1/4 ∧ (1/4:ℚ) < 1 := by norm_num
+
+
 end Lyon.C11
+
